@@ -288,14 +288,14 @@ def gen(ctx):
     alpha = reduced_m + reduced_c
     for n in (1, 2, 3):
         for seq in itertools.product(range(len(alpha)), repeat=n):
-            if n == 3 and not full and (seq[0] * 31 + seq[1] * 7 + seq[2]) % 6:
+            if n == 3 and not full and (seq[0] * 31 + seq[1] * 7 + seq[2]) % 3:
                 continue
             ops = [alpha[i] for i in seq]
             if not any(o[0] == 'call' for o in ops):
                 continue
             yield from emit(ops)
     # sampled longer histories over the full alphabet, biased towards adds first
-    for _ in range(60000 if full else 2500):
+    for _ in range(300000 if full else 8000):
         n = rng.randint(3, 6)
         ops = []
         for i in range(n):
